@@ -58,6 +58,15 @@ def history_one(payload):
                         with open(path, "w") as f:
                             f.write(text)
                     got = ("ok", v.validate(json_file_path=path))
+                elif entry == "file_elsewhere":
+                    # the file lives in a directory called `schemas` that is not the repository's own (a copy elsewhere,
+                    # holding nothing else): where a document comes from is no part of the document
+                    edir = _os.path.join(tmpdir, "elsewhere", "schemas", "sub")
+                    _os.makedirs(edir, exist_ok=True)
+                    path = _os.path.join(edir, "doc%d.json" % i)
+                    with open(path, "w") as f:
+                        f.write(js.dumps(d))
+                    got = ("ok", v.validate(json_file_path=path))
                 elif entry in ("next_id", "all_ids"):
                     # the two other public entry points: they validate the file and answer from the validated schema
                     import io, contextlib
@@ -264,6 +273,44 @@ def run(ctx):
     for deg in ({}, [], {"standard": "only"}):
         payloads.append({"docs": [deg, ship[0]], "calls": [(0, "dict"), (0, "json"), (0, "file"), (1, "dict"), (0, "dict"), (0, "file"), (0, "json")]})
         payloads.append({"docs": [ship[1], deg], "calls": [(0, "json"), (1, "dict"), (1, "json")]})
+    # documents submitted as files from another `schemas` directory (imports still resolve as for every other entry
+    # point), then through the other entry points on the same instance
+    for i, d in enumerate(ship):
+        if isinstance(d, dict) and d.get("imports"):
+            payloads.append({"docs": [d, ship[(i + 1) % len(ship)]], "calls": [(0, "file_elsewhere"), (0, "json"), (1, "file_elsewhere"), (0, "dict"), (1, "json")]})
+            payloads.append({"docs": [d], "calls": [(0, "json"), (0, "file_elsewhere"), (0, "json")]})
+    for d in rng.sample(ship, min(6, len(ship))):
+        payloads.append({"docs": [d], "calls": [(0, "file_elsewhere"), (0, "file"), (0, "json")]})
+    # a conformant document, then a DIFFERENT document that a careless fingerprint would take for it: the same content
+    # with an order-sensitive array reordered (pipeline operations), or with an empty array written as an empty object
+    import pipes as _pp
+    n_tw = 0
+    for i in range(400):
+        if n_tw >= (24 if quick else 240):
+            break
+        s0, b0 = _pp.gen_valid_p(rng, threads=(i % 4 == 0), n_pipes=rng.choice([1, 2]))
+        s2 = copy.deepcopy(s0)
+        b2 = copy.copy(b0)
+        b2.s = s2
+        name = ("p_reorder_first_set", "p_set_not_first", "p_first_not_set")[i % 3]
+        try:
+            desc = M.MUTATORS[name][1](rng, s2, b2)
+        except Exception:
+            desc = None
+        if desc is None:
+            continue
+        n_tw += 1
+        seed = rng.randrange(1 << 30)
+        d0, d2 = S.render(s0, random.Random(seed), "id", False, False), S.render(s2, random.Random(seed), "id", False, False)
+        payloads.append({"docs": [d0, d2], "calls": [(0, "json"), (1, "json"), (0, "dict"), (1, "dict")]})
+        payloads.append({"docs": [d0, d2], "calls": [(0, "file"), (1, "file"), (1, "json")]})
+    for d in ship:
+        if isinstance(d, dict):
+            for key in ("terms", "pipelines", "thread_groups", "checkpoints"):
+                if d.get(key) == []:
+                    d2 = dict(copy.deepcopy(d), **{key: {}})
+                    payloads.append({"docs": [d, d2], "calls": [(0, "json"), (1, "json"), (0, "dict"), (1, "dict"), (1, "file")]})
+                    break
     # every shipped document and pipeline fault as a Python literal and as decoded JSON; a document that imports a file
     # which exists but is not a valid schema, several times in a row
     bad_import = dict(copy.deepcopy(ship[0]), imports=[{"file_name": "example"}])
